@@ -156,7 +156,7 @@ func statusMapping(c *Ctx) {
 			finfo := w.fi.Pkg.TypesInfo
 			al := errAliases(w.fi, w.objs...)
 			// read path exception: a failed de-inlining keeps the data inline (same exception as R01h)
-			if w.fi.Key == "server.(*grpcServer).maybeInline" {
+			if w.fi.Key == "server.(*grpcServer).maybeInline" || onlyCalledFrom(c, w.fi.Key, "server.(*grpcServer).maybeInline", 0) {
 				R.OK("R17d", c.Cfg+w.site+":translated", c.P.Pos(w.pos), "read path (de-inlining into the CAS while serving GetActionResult): a failed store is logged and the data stays inline; no write is refused")
 				continue
 			}
@@ -370,4 +370,26 @@ func assertedFrom(fi *FuncInfo, co types.Object, al map[types.Object]bool) bool 
 		return true
 	})
 	return found
+}
+
+// onlyCalledFrom: every (transitive) caller chain of key inside package server starts at root.
+func onlyCalledFrom(c *Ctx, key, root string, depth int) bool {
+	if depth > 3 {
+		return false
+	}
+	n := 0
+	for _, g := range c.P.FuncsInPkg("/server") {
+		if strings.HasSuffix(c.P.Fset.Position(g.Decl.Pos()).Filename, "_test.go") {
+			continue
+		}
+		for _, call := range callsIn(g.Decl.Body, true) {
+			if calleeKey(g.Pkg.TypesInfo, call) == key {
+				n++
+				if g.Key != root && !onlyCalledFrom(c, g.Key, root, depth+1) {
+					return false
+				}
+			}
+		}
+	}
+	return n > 0
 }
